@@ -571,3 +571,64 @@ Proof.
   apply in_app_or in Hin. destruct Hin as [Hin | Hin]; apply in_map_iff in Hin;
     destruct Hin as [e0 [<- _]]; eapply K; eauto.
 Qed.
+
+(* ---------- detect_aliases: the syntactic shapes ---------- *)
+Definition sgnq (n : bool) (q : Qc) : Qc := if n then - q else q.
+
+Lemma detect_alias_fast r pc x y (n : bool) : x <> y ->
+  let e := Bin (if n then Add else Sub) (Sym x) (Sym y) in
+  detect_alias pc e = Some (x, y, n) /\ (eval r e = 0 <-> r x = sgnq n (r y)).
+Proof.
+  intro Hxy. assert (E : Pos.eqb y x = false) by (apply Pos.eqb_neq; congruence).
+  destruct n; simpl; unfold detect_alias, symvar; simpl; rewrite E; simpl; split; try reflexivity.
+  - apply Qc_add_0.
+  - apply Qc_sub_0.
+Qed.
+
+(* witnesses used by the _refuted statements *)
+Definition e_squares : expr := Bin Sub (Un Sq (Sym 1%positive)) (Un Sq (Sym 2%positive)).
+Definition r_squares : env := fun x => if Pos.eqb x 1%positive then 1 else - (1).
+
+Lemma slow_path_unsound :
+  detect_alias [] e_squares = Some (1%positive, 2%positive, false)
+  /\ eval r_squares e_squares = 0 /\ r_squares 1%positive <> r_squares 2%positive.
+Proof.
+  split; [vm_compute; reflexivity |]. split.
+  - apply Qc_is_canon. reflexivity.
+  - intro H. apply (f_equal (fun q => Qnum (this q))) in H. vm_compute in H. discriminate.
+Qed.
+
+(* '_e1 = _e2; _e2 = _e1; a3 = _e1 + 1' with both _e eliminable (1 = _e1, 2 = _e2, 3 = a3) *)
+Definition m_osc : model :=
+  Model [] [] [1; 2; 3]%positive [] [] []
+        [Bin Sub (Sym 1%positive) (Sym 2%positive); Bin Sub (Sym 2%positive) (Sym 1%positive);
+         Bin Sub (Sym 3%positive) (Bin Add (Const 1) (Sym 1%positive))] [] [] [] false false.
+Definition o_elim12 : options :=
+  Options false false false false false (Some [1; 2]%positive) true false true false.
+
+Lemma osc_not_closed :
+  let m' := simplify o_elim12 m_osc in
+  failed m' = false /\ warned m' = true /\ algs m' = [3%positive] /\
+  existsb (fun e => occurs 1%positive e || occurs 2%positive e) (eqs m') = true.
+Proof. vm_compute. repeat split; reflexivity. Qed.
+
+(* a regular example: p(4) = 2; c(5) = 3; a1 = c + p; _e2 = 2*a1; a3 = -_e2   (1 = a1, 2 = _e2, 3 = a3) *)
+Definition m_ex : model :=
+  Model [] [] [1; 2; 3]%positive [] [(5%positive, Some (Const (Q2Qc 3)))] [(4%positive, Some (Const (Q2Qc 2)))]
+        [Bin Sub (Sym 1%positive) (Bin Add (Sym 5%positive) (Sym 4%positive));
+         Bin Sub (Sym 2%positive) (Un Twice (Sym 1%positive));
+         Bin Add (Sym 3%positive) (Sym 2%positive)] [] [] [] false false.
+Definition r_ex : env := fun x =>
+  match x with 1%positive => Q2Qc 5 | 2%positive => Q2Qc 10 | 3%positive => - Q2Qc 10
+          | 4%positive => Q2Qc 2 | 5%positive => Q2Qc 3 | _ => 0 end.
+Definition o_ex : options :=
+  Options false false true true true (Some [2%positive]) true true true false.
+
+Lemma ex_sat : sat r_ex m_ex.
+Proof. constructor; simpl; repeat constructor; simpl; apply Qc_is_canon; reflexivity. Qed.
+
+Lemma ex_simplified :
+  let m' := simplify o_ex m_ex in
+  failed m' = false /\ warned m' = false /\ algs m' = [1%positive] /\ length (eqs m') = 1%nat /\
+  arel m' = [(1%positive, [(3%positive, true)])].
+Proof. vm_compute. repeat split; reflexivity. Qed.
